@@ -591,6 +591,19 @@ def finish_item():
             # `try: <writes> except OSError: raise TaskFailed(...)`: the effects are those of the body; a write that fails
             # (the task removed its own output directory) turns the execution into a failed one and is outside the model
             return block(list(st.body) + rest)
+        if isinstance(st, ast.If) and not st.orelse and src.startswith("if handle.process is not None:"):
+            # the reaped child's Popen object and its pipes are released: bookkeeping on `handle.process` only -- no
+            # effect on the logs, the records or the index
+            names = {n.id for n in ast.walk(st) if isinstance(n, ast.Name)}
+            callsrc = {ast.unparse(n.func) for n in ast.walk(st) if isinstance(n, ast.Call)}
+            if names <= {"handle", "pipe"} and callsrc <= {"pipe.close"} and not any(isinstance(n, (ast.Raise, ast.Return)) for n in ast.walk(st)):
+                return block(rest)
+            raise Unsupported("the release of handle.process does more than closing its pipes: %s" % src)
+        if isinstance(st, ast.If) and not st.orelse and src.startswith("if not self._output_path.is_dir():") and len(st.body) == 1 \
+                and isinstance(st.body[0], ast.Raise) and "TaskFailed(" in ast.unparse(st.body[0]):
+            # the task removed its own output directory: the execution becomes a failed one (nothing is inserted); like a
+            # failing write of the record files this is outside the model, whose tasks leave their output directory alone
+            return block(rest)
         if isinstance(st, ast.If) and not st.orelse:
             then = block(st.body)
             if then.endswith("[3%N]") and then.count("::") == 0:
@@ -732,13 +745,89 @@ def spawn_item():
                "true" if run_ok else "false"))
 
 
+def abort_item():
+    """errors/signal.py (the handler and abort_deferred) and the launch block of Executor._launch_ops_if_able.
+    Instruction codes of the block, in program order: 0 enter the deferred region, 1 a statement that neither creates nor
+    registers a process, 2 `... = next_op.start_execution(...)` (the child comes into existence), 3 `self._inflight_ops.add_op(handle,
+    next_op)`, 4 leave the region (raise if an abort is pending)."""
+    sig = ast.parse(open(os.path.join(SRC, "conductor/errors/signal.py"), encoding="utf-8").read())
+    fns = {n.name: n for n in sig.body if isinstance(n, ast.FunctionDef)}
+    if "_terminate_handler" not in fns or "abort_deferred" not in fns:
+        raise Unsupported("errors/signal.py: no _terminate_handler / abort_deferred")
+    regs = [ast.unparse(st) for st in _body_without_docstring(fns.get("register_signal_handlers", ast.parse("def f(): pass").body[0]))]
+    if sorted(regs) != sorted(["signal.signal(signal.SIGINT, _terminate_handler)", "signal.signal(signal.SIGTERM, _terminate_handler)"]):
+        raise Unsupported("register_signal_handlers does not install _terminate_handler for exactly SIGINT and SIGTERM: %s" % regs)
+    h = [st for st in _body_without_docstring(fns["_terminate_handler"]) if not isinstance(st, ast.Global)]
+    h_ok = (len(h) == 2 and isinstance(h[0], ast.If) and ast.unparse(h[0].test) == "_defer_depth > 0" and not h[0].orelse
+            and [ast.unparse(x) for x in h[0].body] == ["_abort_pending = True", "return"] and ast.unparse(h[1]) == "raise ConductorAbort()")
+    if not h_ok:
+        raise Unsupported("_terminate_handler outside the supported fragment: %s" % "; ".join(ast.unparse(x) for x in h))
+    cm = fns["abort_deferred"]
+    if [ast.unparse(d) for d in cm.decorator_list] != ["contextlib.contextmanager"]:
+        raise Unsupported("abort_deferred is not a contextlib.contextmanager")
+    b = [st for st in _body_without_docstring(cm) if not isinstance(st, ast.Global)]
+    cm_ok = (len(b) == 2 and ast.unparse(b[0]) == "_defer_depth += 1" and isinstance(b[1], ast.Try) and not b[1].handlers and not b[1].orelse
+             and [ast.unparse(x) for x in b[1].body] == ["yield"] and len(b[1].finalbody) == 2 and ast.unparse(b[1].finalbody[0]) == "_defer_depth -= 1"
+             and isinstance(b[1].finalbody[1], ast.If) and ast.unparse(b[1].finalbody[1].test) == "_defer_depth == 0 and _abort_pending" and not b[1].finalbody[1].orelse
+             and [ast.unparse(x) for x in b[1].finalbody[1].body] == ["_abort_pending = False", "raise ConductorAbort()"])
+    if not cm_ok:
+        raise Unsupported("abort_deferred outside the supported fragment")
+    # the globals are touched nowhere else in the package
+    for dp, _dn, fnames in os.walk(os.path.join(SRC, "conductor")):
+        for fn in fnames:
+            if fn.endswith(".py") and os.path.join(dp, fn) != os.path.join(SRC, "conductor/errors/signal.py"):
+                text = open(os.path.join(dp, fn), encoding="utf-8").read()
+                if "_defer_depth" in text or "_abort_pending" in text:
+                    raise Unsupported("%s touches the deferral state of errors/signal.py" % fn)
+    # the launch block
+    f = _find_method("conductor/execution/executor.py", "Executor", "_launch_ops_if_able")
+    withs = [st for st in _walk_stmts(f.body) if isinstance(st, ast.With)]
+    starts = [st for st in _walk_stmts(f.body) if "start_execution(" in ast.unparse(st) and not isinstance(st, (ast.While, ast.If, ast.Try, ast.With, ast.For))]
+    if len(withs) != 1 or len(withs[0].items) != 1 or ast.unparse(withs[0].items[0].context_expr) != "abort_deferred()" or withs[0].items[0].optional_vars is not None:
+        raise Unsupported("_launch_ops_if_able has no single `with abort_deferred():` block")
+    codes = []
+    for st in withs[0].body:
+        src = ast.unparse(st)
+        if isinstance(st, ast.Assign) and isinstance(st.value, ast.Call) and ast.unparse(st.value.func) == "next_op.start_execution":
+            codes.append(2)
+        elif src == "self._inflight_ops.add_op(handle, next_op)":
+            codes.append(3)
+        elif "start_execution" in src or "add_op" in src or isinstance(st, (ast.With, ast.Try, ast.While, ast.For, ast.Raise, ast.Return)) or "abort_deferred" in src:
+            raise Unsupported("statement of the launch block outside the supported fragment: %s" % src)
+        else:
+            codes.append(1)
+    if len(starts) != 1 or starts[0] not in withs[0].body:
+        raise Unsupported("start_execution is called outside the deferred block")
+    # run_plan: the abort handler terminates every registered process
+    rp = _find_method("conductor/execution/executor.py", "Executor", "run_plan")
+    handlers = [h_ for st in _walk_stmts(rp.body) if isinstance(st, ast.Try) for h_ in st.handlers if h_.type is not None and ast.unparse(h_.type) == "ConductorAbort"]
+    term = len(handlers) == 1 and handlers[0].body and ast.unparse(handlers[0].body[0]) == "self._inflight_ops.terminate_processes()" \
+        and isinstance(handlers[0].body[-1], ast.Raise) and handlers[0].body[-1].exc is None
+    return ("(* conductor/errors/signal.py: _terminate_handler notes the signal while _defer_depth > 0 and raises ConductorAbort otherwise; abort_deferred raises\n"
+            "   the noted abort when the outermost region is left.  conductor/execution/executor.py _launch_ops_if_able: the statements of the\n"
+            "   `with abort_deferred():` block (0 enter, 1 other, 2 start_execution, 3 add_op, 4 leave); run_plan's `except ConductorAbort` begins with\n"
+            "   terminate_processes() and re-raises. *)\n"
+            "Definition gen_launch_block : list N := [%s].\n"
+            "Definition gen_abort_handler_terminates_registered : bool := %s.\n"
+            % ("; ".join("%d%%N" % c for c in [0] + codes + [4]), "true" if term else "false"))
+
+
 def combine_item():
     """CombineOutputs.start_execution: what happens to ONE dependency, as a function of what the file system says
     about its directory and about the entry found under its name.  Result codes: 0 skipped (continue), 1 the entry
     is unlinked and the link made, 2 CombineOutputFileConflict, 3 the link is made (nothing was there)."""
     f = _find_method("conductor/execution/ops/combine_outputs.py", "CombineOutputs", "start_execution")
     loop = None
+    top = []
     for st in _body_without_docstring(f):
+        if isinstance(st, ast.Try) and not st.orelse and not st.finalbody and st.handlers \
+                and all(ast.unparse(h.type) == "OSError" and len(h.body) == 1 and isinstance(h.body[0], ast.Raise) and "TaskFailed(" in ast.unparse(h.body[0]) for h in st.handlers):
+            # `try: mkdir; for ...: ... except OSError: raise TaskFailed(...)`: a file system error makes the combine task a
+            # failed task; the decisions are those of the body
+            top += list(st.body)
+        else:
+            top.append(st)
+    for st in top:
         if isinstance(st, ast.For) and ast.unparse(st.iter) == "self._deps_output_paths":
             loop = st
     if loop is None or loop.orelse:
@@ -978,7 +1067,7 @@ def generate():
         failures["task_type_table"] = "%s: %s" % (type(ex).__name__, ex)
         parts.append("(* task_type_table: NOT TRANSLATED: %s *)\n" % str(ex).replace("*)", "* )"))
     for coqname, fn in (("gen_gate_open", gate_item), ("gen_new_version", version_item), ("gen_loop_goes_on", loop_item), ("gen_wants_slot", slot_item),
-                        ("gen_prune", prune_item), ("gen_should_run", should_run_item), ("gen_validate_args", validate_args_item), ("gen_finish", finish_item), ("gen_record_type", record_type_item), ("gen_env_overrides", spawn_item), ("gen_combine_decision", combine_item), ("gen_gc_decision", gc_item), ("gen_restore_before_loop", restore_item)):
+                        ("gen_prune", prune_item), ("gen_should_run", should_run_item), ("gen_validate_args", validate_args_item), ("gen_finish", finish_item), ("gen_record_type", record_type_item), ("gen_env_overrides", spawn_item), ("gen_launch_block", abort_item), ("gen_combine_decision", combine_item), ("gen_gc_decision", gc_item), ("gen_restore_before_loop", restore_item)):
         try:
             parts.append(fn())
         except Exception as ex:  # pylint: disable=broad-except
